@@ -42,6 +42,10 @@ def check(ctx: Ctx):
     ctx.expect("MERGE", 6)
     ctx.expect("THRESH", 5)
     ctx.expect("CONNECT", 3)
+    from ..rules import purity
+
+    purity.check_stateless(ctx, ["droplets.image_analysis.get_length_scale"])
+    ctx.expect("STATELESS", 40)
     seen = spectrum.check_ls_units(ctx)
     spectrum.check_ls_structure(ctx)
     ctx.expect("DIM", 6)
